@@ -136,6 +136,10 @@ func annots(kv ...string) string {
 			parts = append(parts, kv[i])
 			continue
 		}
+		if strings.HasPrefix(kv[i+1], "\x01") { // a flag annotation written with a value
+			parts = append(parts, kv[i]+" = "+strconv.Quote(kv[i+1][1:]))
+			continue
+		}
 		q := strconv.Quote(kv[i+1])
 		if strings.Contains(kv[i+1], "\"") {
 			q = "'" + kv[i+1] + "'"
@@ -155,6 +159,25 @@ func flag(b bool) string {
 	return ""
 }
 
+// flagValues: the spellings of a flag annotation (go.redact, go.nolog). The annotation counts
+// whatever value it is written with; the spelling is a function of the field's name, so that
+// rendering stays deterministic.
+var flagValues = []string{"\x00", "\x00", "\x00", "\x01", "\x01true", "\x011", "\x01yes", "\x01on", "\x01false", "\x010", "\x01TRUE ", "\x01enabled"}
+
+func flagFor(name string, salt int, b bool) string {
+	if !b {
+		return ""
+	}
+	h := salt
+	for _, ch := range []byte(name) {
+		h = h*31 + int(ch)
+	}
+	if h < 0 {
+		h = -h
+	}
+	return flagValues[h%len(flagValues)]
+}
+
 func (f *File) fieldText(fl *Field) string {
 	var sb strings.Builder
 	fmt.Fprintf(&sb, "%d: ", fl.ID)
@@ -169,7 +192,7 @@ func (f *File) fieldText(fl *Field) string {
 	if fl.Default != nil {
 		sb.WriteString(" = " + f.LitText(fl.Default))
 	}
-	sb.WriteString(annots("go.name", fl.GoName, "go.label", fl.Label, "go.tag", fl.Tag, "go.redact", flag(fl.Redact), "go.nolog", flag(fl.NoLog)))
+	sb.WriteString(annots("go.name", fl.GoName, "go.label", fl.Label, "go.tag", fl.Tag, "go.redact", flagFor(fl.Name, 1, fl.Redact), "go.nolog", flagFor(fl.Name, 2, fl.NoLog)))
 	return sb.String()
 }
 
